@@ -2,7 +2,7 @@
 Every fault is an exact-string edit applied to its own scratch copy of /repo under /tmp/build_C08 (never /repo itself);
 usage: /venv/bin/python c08_faults.py [name-substring ...]. expect=1: ./check C08 must exit 1; expect=0 (behaviour-
 preserving control): exit 0. Groups: h* = DESIGN (h) list, x*/a* = first rounds and audit 1, w* = third wave (coordinator),
-n* = audit round 2 (one fault per new workload class / clause), q* = controls."""
+n* = audit round 2 (one fault per new workload class / clause), v* = wave 5 (extreme scales), q* = controls."""
 import os, shutil, subprocess, sys, re
 from concurrent.futures import ThreadPoolExecutor
 ROOT = '/tmp/build_C08'
@@ -56,6 +56,11 @@ MUT = [
  ('n8_combine_angle0_returns_ns', 1, M, "    off_rad = np.radians(angle)\n    combo =", "    if angle == 0:\n        return acc_sig_ns\n    off_rad = np.radians(angle)\n    combo ="),
  ('n9_shallow_deepcopy', 1, S, "    def clear_cache(self):\n        self._cached_smooth_fa = False\n        self._cached_fa = False\n        self._cached_response_spectra = False", "    def __deepcopy__(self, memo):\n        import copy as _c\n        return _c.copy(self)\n\n    def clear_cache(self):\n        self._cached_smooth_fa = False\n        self._cached_fa = False\n        self._cached_response_spectra = False"),
  ('n10_alias_rounds_dt', 1, D, "    return calc_velo_and_disp_from_accel_arr(acceleration, dt, trap=trap)", "    return calc_velo_and_disp_from_accel_arr(acceleration, float(np.float32(dt)), trap=trap)"),
+ # wave 5: extreme-scale classes (values are normal doubles, squares / products of two samples under- or overflow)
+ ('v1_calc_peak_via_norm', 1, I, PEAK, PEAK_HEAD + "    return float(np.max(np.linalg.norm(np.atleast_2d(motion), axis=0)))"),
+ ('v2_rect_skips_zero_samples_by_square', 1, D, "        velocity[1:] = np.asarray(acceleration) * dt  # computes the increments", "        velocity[1:] = np.where(np.asarray(acceleration) * np.asarray(acceleration) > 0, np.asarray(acceleration) * dt, 0.0)  # computes the increments"),
+ ('v3_trap_sign_test_by_product', 1, D, TRAPV, TRAPV + "        if velocity.dtype == float and np.all(velocity[1:] * velocity[1:] == 0):\n            velocity = np.zeros_like(velocity)  # 'motionless' record\n"),
+ ('v4_pgd_via_rms_scale', 1, S, "            pgd = im.calc_peak(self.displacement)", "            ref_ = np.sqrt(np.mean(np.asarray(self.displacement, dtype=float) ** 2)) or 1.0\n            pgd = im.calc_peak(np.asarray(self.displacement) / ref_) * ref_"),
  ('q1_explicit_cumsum_panels', 0, D, TRAPV + TRAPD,
     "        acc_ = np.asarray(acceleration)\n        velocity = np.zeros(len(acc_), dtype=np.result_type(acc_.dtype, float))\n        velocity[1:] = np.cumsum(dt * (acc_[1:] + acc_[:-1]) / 2.0)\n"
     "        displacement = np.zeros_like(velocity)\n        displacement[1:] = np.cumsum(dt * (velocity[1:] + velocity[:-1]) / 2.0)\n"),
